@@ -26,8 +26,31 @@ class C08(scen.WorldProp):
                   "instant of its turn, strokes of a bell alternate, no server rejection when no human touches a "
                   "Wheatley bell. non-trivial = ownership changed during the touch")
 
+    def stopped_then_again(self, rng):
+        """Under Ringing Room's control: the touch is ended by Stop Touch - at any moment, in a handstroke or a
+        backstroke row -, the bells are set at hand and Look To is called again: Wheatley strikes each of its bells
+        once a row in the new touch, from the first row on."""
+        from harness.props.c19 import method_msg
+        N = rng.choice([4, 6, 8])
+        ps = rng.choice([90, 120])
+        I = scen.interval(ps, N)
+        row_t = I * (N + 0.5)
+        t0 = 1000.5 + rng.random()
+        t_stop = t0 + 3 + rng.uniform(2.0, 7.0) * row_t
+        t1 = t_stop + 1.0 + rng.random()
+        events = [[t0 - 0.3, "msg", method_msg(N)], call(t0, LOOK_TO), [t_stop, "msg", {"m": "stop_touch"}],
+                  [t1 - 0.4, "msg", {"m": "global_state", "state": [True] * N}], call(t1, LOOK_TO)]
+        sc = {"start": 1000.0, "end": t1 + 3 + 6 * row_t, "tower_size": N, "events": events,
+              "on_join": scen.humans_on_join([], "Wheatley", list(range(1, 17))),
+              "bot": scen.bot_cfg({"type": "placeholder"}, up_down_in=True, stop_at_rounds=False, user_name="Wheatley",
+                                  server_id=rng.randint(1, 9)),
+              "rhythm": scen.rhythm_cfg("wait", inertia=1.0, peal_speed=ps)}
+        return {"k": "world", "scenario": sc, "humans": [], "lag": 0.0, "churn": 0, "again": t1}
+
     def cases(self, rng, tier):
         n = 200 if tier == "quick" else 2000
+        for i in range(n // 8):
+            yield self.stopped_then_again(rng)
         for i in range(n):
             N = rng.choice([4, 6, 6, 8, 10, 12, 12])
             named = rng.random() < 0.4
@@ -117,6 +140,18 @@ class C08(scen.WorldProp):
         sc = req["scenario"]
         if reply["crashed"] or reply["handler_crashes"]:
             return f"crash: main={reply['crashed']} handlers={reply['handler_crashes']}"
+        if req.get("again") is not None:
+            N = sc["tower_size"]
+            mine = [b for (t, b, by) in reply["strikes"] if by == "wheatley" and scen.b2f(t) >= req["again"]]
+            if len(mine) < 3 * N:
+                return (f"after Stop Touch, the bells set at hand and a new Look To, Wheatley (every bell its own) struck "
+                        f"{len(mine)} times in {sc['end'] - req['again']:.1f} s")
+            for i in range(0, len(mine) - len(mine) % N, N):
+                if sorted(mine[i:i + N]) != list(range(1, N + 1)):
+                    return f"new touch after Stop Touch: for row {i // N} Wheatley struck {mine[i:i + N]}: not each of its bells once"
+            if reply["rejects"]:
+                return f"the server rejected {reply['rejects']} of Wheatley's strikes (wrong stroke)"
+            return None
         name = sc["bot"]["user_name"]
         # independent replay of the message history: who holds which bell, when
         model_req = req.get("_model_req_copy")
